@@ -26,7 +26,19 @@ func main() {
 	emit := flag.Bool("emit", false, "print the failing obligations as JSON and exit 0 (used by the self-test)")
 	control := flag.String("control", "", "thorough tier: run only this control of the self-test corpus")
 	noSelf := flag.Bool("no-selftest", false, "thorough tier: skip the analyser self-test")
+	dumpSchema := flag.Bool("dump-schema", false, "print the struct types of the analysed tree in baseline-schema form (maintenance: regenerates internal/rules/baseline_schema.json)")
 	flag.Parse()
+	if *dumpSchema {
+		an.BaselineSchema, an.BaselineParams = nil, nil
+		p, err := an.Load(*repo)
+		if err != nil {
+			fmt.Println("ERROR", err)
+			os.Exit(2)
+		}
+		b, _ := json.MarshalIndent(map[string]interface{}{"structs": p.DumpSchema(), "params": p.DumpParams()}, "", " ")
+		fmt.Println(string(b))
+		return
+	}
 
 	if *verif == "" {
 		exe, _ := os.Executable()
